@@ -10,7 +10,7 @@ PROP = "C19"
 LEVEL = "exploration"
 RULE = ("Generated file archives (3-14 real .tgz artifacts whose audit trails form a reference DAG through "
         "build-step records, tools and sandbox; meta/build/metaEnv fields from small value sets incl. missing "
-        "fields and build.date ties) and histories of scan / add / remove-behind-Bob's-back / re-upload / delete "
+        "fields and build.date ties) and histories of scan / add / remove-behind-Bob's-back / re-upload (same build-id, optionally new meta data) / delete "
         "index / clean / clean --dry-run / clean -n / find / find -n with expression lists generated from the "
         "documented grammar (comparisons, && || !, parentheses, LIMIT, ORDER BY ASC|DESC). Oracle: a reference "
         "evaluator over the artifacts actually on disk (with -n: as of the last scan): the kept set must be the "
@@ -300,8 +300,10 @@ def parse_listing(out, n):
     return got
 
 def run_case(ctx, case, confirm=False):
-    specs = case["artifacts"]
+    import copy
+    specs = copy.deepcopy(case["artifacts"])      # re-uploads may change meta data (same build-id, new build)
     n = len(specs)
+    scanned_specs = specs                          # what the index knows (as of the last scan)
     base = ctx.tmpdir()
     arch = os.path.join(base, "arch")
     os.makedirs(arch)
@@ -329,7 +331,16 @@ def run_case(ctx, case, confirm=False):
             elif k == "reupload":
                 i = op[1] % n
                 if i in disk:
-                    salt += 1; os.unlink(os.path.join(arch, relname(i))); write_artifact(arch, specs[i], specs, salt)
+                    salt += 1; os.unlink(os.path.join(arch, relname(i)))
+                    if len(op) > 2 and op[2] % 3:
+                        # same build-id built again elsewhere: date / machine / license / package path differ
+                        specs = copy.deepcopy(specs)
+                        specs[i]["date"] = DATES[op[2] % len(DATES)]
+                        specs[i]["machine"] = MACHINES[op[2] % 2]
+                        specs[i]["license"] = LICENSES[(op[2] // 2) % len(LICENSES)]
+                        specs[i]["package"] = (PACKAGES + [None])[(op[2] // 3) % (len(PACKAGES) + 1)]
+                        labels.add("reupload-changed-meta")
+                    write_artifact(arch, specs[i], specs, salt)
             elif k == "rmindex":
                 for f in os.listdir(arch):
                     if f.startswith(".bob-archive"):
@@ -339,7 +350,7 @@ def run_case(ctx, case, confirm=False):
                 r = run(arch, ["archive", "-l", "scan"])
                 if r.rc != 0:
                     ctx.fail("scan-failed", "%s: bob archive scan failed: %s" % (where, r.err[-300:]), case)
-                indexed = set(disk)
+                indexed = set(disk); scanned_specs = specs
             elif k in ("clean", "find"):
                 noscan, dry = bool(op[2] & 1), bool(op[2] & 2) and k == "clean"
                 rexprs = op[1]
@@ -347,8 +358,11 @@ def run_case(ctx, case, confirm=False):
                 if noscan and indexed is None:
                     noscan = False
                 pop = set(indexed) if noscan else set(disk)
+                if not noscan:
+                    scanned_specs = specs
+                cur = scanned_specs if noscan else specs
                 try:
-                    outcomes = valid_outcomes(rexprs, pop, specs)
+                    outcomes = valid_outcomes(rexprs, pop, cur)
                     expect_err = False
                 except Err:
                     expect_err = True
@@ -405,7 +419,7 @@ def run_case(ctx, case, confirm=False):
                         ok = True
                         def limited(rx):
                             try:
-                                return rx.get("limit") is not None and len(matches(rx["pred"], pop, specs)) > rx["limit"]
+                                return rx.get("limit") is not None and len(matches(rx["pred"], pop, cur)) > rx["limit"]
                             except (Err, Unspec):
                                 return False
                         if any(limited(rx) for rx in rexprs) and ((set(keep) & before) - set(sel)) and (before - after):
@@ -470,7 +484,7 @@ rexpr_st = st.fixed_dictionaries({
 I = st.integers(0, 40)
 hist_op = st.one_of(
     st.tuples(st.just("add"), I), st.tuples(st.just("remove"), I), st.tuples(st.just("remove"), I),
-    st.tuples(st.just("reupload"), I), st.tuples(st.just("rmindex")), st.tuples(st.just("scan")),
+    st.tuples(st.just("reupload"), I, I), st.tuples(st.just("reupload"), I, I), st.tuples(st.just("rmindex")), st.tuples(st.just("scan")),
     st.tuples(st.just("clean"), st.lists(rexpr_st, min_size=1, max_size=3), st.integers(0, 3)),
     st.tuples(st.just("clean"), st.lists(rexpr_st, min_size=1, max_size=2), st.integers(0, 3)),
     st.tuples(st.just("find"), st.lists(rexpr_st, min_size=1, max_size=2), st.integers(0, 1)),
